@@ -512,3 +512,67 @@ Lemma nonvacuous_tiled :
   end /\
   construct_tiled c 3 5 true (Label [m]) <> construct_tiled c 3 4 true (Label [m]).
 Proof. vm_compute. repeat split; discriminate. Qed.
+
+(* ------------------------------------------------------------------ *)
+(* the order of the source frames (finding D113)                        *)
+(* ------------------------------------------------------------------ *)
+Lemma expected_tile_plane_out : forall c R C i t t',
+  (0 <=? t) && (t <? n_tiles R C (rows c) (cols c)) = false ->
+  (0 <=? t') && (t' <? n_tiles R C (rows c) (cols c)) = false ->
+  expected_tile_plane c R C i t = expected_tile_plane c R C i t'.
+Proof.
+  intros c R C i t t' H H'. unfold expected_tile_plane. apply map_ext. intros p. apply map_ext. intros k.
+  unfold expected_tile_pixel. now rewrite H, H'.
+Qed.
+
+(* a source that lists its frames in row-major tile order: the demand of the
+   property is the specification the theorems above are stated with *)
+Lemma order_row_major : forall c R C i req,
+  expected_tiled_req_order c R C i (zrange (n_tiles R C (rows c) (cols c))) req
+  = expected_tiled_req c R C i req.
+Proof.
+  intros c R C i req. unfold expected_tiled_req_order, expected_tiled_req. apply map_ext. intros f.
+  unfold frame_tile. set (n := n_tiles R C (rows c) (cols c)).
+  assert (Hl : zlen (zrange n) = Z.max 0 n) by (unfold zlen; rewrite zrange_length; lia).
+  rewrite Hl. destruct ((1 <=? f) && (f <=? Z.max 0 n)) eqn:E.
+  - rewrite nthz_zrange by lia. reflexivity.
+  - apply expected_tile_plane_out; fold n; lia.
+Qed.
+
+(* THE PROPERTY for tile_pixel_array=True, under the hypothesis it needs in the
+   code as it is: the source lists its frames in row-major tile order *)
+Theorem tiled_row_major_order : forall c R C full i st,
+  well_formed_tiled c R C i = true -> construct_tiled c R C full i = Ok st ->
+  forall lazy warm req am,
+    read_guard st req true am = Ok tt ->
+    read_g (frame_getter lazy warm st) st req true am
+    = Ok (expected_tiled_req_order c R C i (zrange (n_tiles R C (rows c) (cols c))) req).
+Proof.
+  intros c R C full i st H Hc lazy warm req am Hg. rewrite order_row_major.
+  now apply (tiled_no_silent_corruption c R C full i st).
+Qed.
+
+(* ... and WITHOUT that hypothesis the property is refuted (finding D113, open):
+   a 4 x 6 matrix in 2 x 3 tiles whose only non-zero pixel is the top-left one,
+   the source listing its four frames bottom-right first; the top-left pixel
+   lies under source frame 4, the by-frame read shows it under frame 1 *)
+Theorem tiled_any_order_refuted :
+  exists c R C i forder,
+    well_formed_tiled c R C i = true /\ valid_tiled c R C i = true /\
+    Permutation forder (zrange (n_tiles R C (rows c) (cols c))) /\
+    match construct_tiled c R C false i with
+    | Ok st => read_by_frame false st [1; 2; 3; 4] false
+               <> Ok (expected_tiled_req_order c R C i forder [1; 2; 3; 4]) /\
+               read_by_frame false st [1; 2; 3; 4] false
+               = Ok [[[1];[0];[0];[0];[0];[0]]; [[0];[0];[0];[0];[0];[0]];
+                     [[0];[0];[0];[0];[0];[0]]; [[0];[0];[0];[0];[0];[0]]] /\
+               expected_tiled_req_order c R C i forder [4] = [[[1];[0];[0];[0];[0];[0]]]
+    | Err _ => False
+    end.
+Proof.
+  exists (Cfg BINARY DInt 1 1 false [1] 2 3 4 6 4 true), 4, 6,
+         (Label [[1;0;0;0;0;0; 0;0;0;0;0;0; 0;0;0;0;0;0; 0;0;0;0;0;0]]), [3; 2; 1; 0].
+  split; [reflexivity|]. split; [reflexivity|]. split.
+  - change (Permutation (rev [0; 1; 2; 3]) [0; 1; 2; 3]). apply Permutation_sym, Permutation_rev.
+  - vm_compute. repeat split. discriminate.
+Qed.
